@@ -43,12 +43,12 @@ def parseStep? : String → Option Step
   | "statOutput" => some .statOutput | "calcPlan" => some .calcPlan | "sizeCheck" => some .sizeCheck
   | "mkdirParent" => some .mkdirParent | "createTmp" => some .createTmp | "decode" => some .decode
   | "fsync" => some .fsync | "close" => some .close | "rename" => some .rename | "fsyncDir" => some .fsyncDir
-  | "integrity" => some .integrity | _ => none
+  | "integrity" => some .integrity | "rmSidecars" => some .rmSidecars | _ => none
 
 def fmtStep : Step → String
   | .statOutput => "statOutput" | .calcPlan => "calcPlan" | .sizeCheck => "sizeCheck" | .mkdirParent => "mkdirParent"
   | .deferRmTmp => "deferRmTmp" | .createTmp => "createTmp" | .decode => "decode" | .fsync => "fsync"
-  | .close => "close" | .rename => "rename" | .fsyncDir => "fsyncDir" | .integrity => "integrity"
+  | .close => "close" | .rmSidecars => "rmSidecars" | .rename => "rename" | .fsyncDir => "fsyncDir" | .integrity => "integrity"
 
 def fmtFileSt : FileSt Unit → String
   | .absent => "absent" | .pre => "pre" | .partialW => "partial" | .complete _ => "complete"
@@ -70,7 +70,7 @@ def handleRestore (args : List (String × String)) : String :=
       let decoded : Option Unit := if corrupt || faults > maxRetriesConst then none else some ()
       let inp : Inputs Unit :=
         { outPre := pre, tmpPre := tmppre, fails := fun s => some s == failStep, decoded := decoded, sizesOk := sizes,
-          integrityOn := integ, integrityOk := fun _ => iok, sidecarWal := true, sidecarShm := true, ctxCancelled := cancel, decodePanics := false }
+          integrityOn := integ, integrityOk := fun _ => iok, sidecarWal := true, sidecarShm := true, ctxCancelled := cancel, walPre := false, shmPre := false, hotWal := id, decodePanics := false }
       let r := restore inp
       let res := match r.2 with
         | .ok _ => "ok" | .error .outputExists => "exists" | .error (.step s) => fmtStep s | .error .crash => "crash"
